@@ -17,8 +17,10 @@ expression-level pieces are reused as they are), plus
     - SELECT CASE: at the `Jump select-skip` behind the selector (where RESUME NEXT continues when the selector fails), at the
       instruction after `select-begin`, at the first instruction of the items of every CASE block (after its label), at the
       `Jump end-select` that closes every CASE block;
-    - FOR: at the `Jump out-of-for` behind the header (where RESUME NEXT continues when a bound or the step fails) and at the
-      `PopRegisters` behind the body (each copy of the body of a FOR … STEP);
+    - FOR: at the `Jump out-of-for` behind the header (where RESUME NEXT continues when a bound or the step fails), at the
+      `PopRegisters` behind the body and at the first instruction of the increment behind it (each copy of the body of a
+      FOR … STEP; the NEXT is a statement of its own, 3abb028), and at the `Jump out-of-for` that follows each copy
+      (7249205, fe11300);
     - WHILE / DO with the condition on top: at the back-edge `Jump`; DO with the condition at the bottom: at the first
       instruction of the condition;
     - the final `Halt`;
@@ -198,15 +200,22 @@ def marksStmt (dp : Dp) (d e : Nat) (off : Nat) : SStmt → List Nat
     match step with
     | none =>
       -- `CopyAToC; LoadA 1; CopyAToD; Jump for-begin; [mark] Jump out-of-for; Label for-begin`
+      -- behind the body: `[mark] PopRegisters; [mark] <increment>` (the NEXT has an address of its own: 3abb028)
       let bodyOff := hdr + 6 + 8
-      [off, hdr + 4] ++ marksStmt dp (d + 1) e bodyOff body ++ [bodyOff + sizeStmt dp (d + 1) e body]
+      let bodyEnd := bodyOff + sizeStmt dp (d + 1) e body
+      [off, hdr + 4] ++ marksStmt dp (d + 1) e bodyOff body ++ [bodyEnd, bodyEnd + 1]
     | some s =>
       let ns := (compileExpr s).length
       let negOff := hdr + 1 + ns + 11
       let posOff := negOff + sizeForBody dp d e body + 1 + 4
+      let negEnd := negOff + 8 + sizeStmt dp (d + 1) e body
+      let posEnd := posOff + 8 + sizeStmt dp (d + 1) e body
+      -- the `Jump out-of-for` that follows each copy has an address: RESUME NEXT after a failed NEXT of the negative copy
+      -- continues there, not in the positive copy of the body (7249205); the one behind the positive copy is the nearest
+      -- address in front of the zero-step `Throw`: RESUME after a zero step continues behind the loop (fe11300; finding C05-g)
       [off, hdr + 1 + ns + 4] ++
-        marksStmt dp (d + 1) e (negOff + 8) body ++ [negOff + 8 + sizeStmt dp (d + 1) e body] ++
-        marksStmt dp (d + 1) e (posOff + 8) body ++ [posOff + 8 + sizeStmt dp (d + 1) e body]
+        marksStmt dp (d + 1) e (negOff + 8) body ++ [negEnd, negEnd + 1, negOff + sizeForBody dp d e body] ++
+        marksStmt dp (d + 1) e (posOff + 8) body ++ [posEnd, posEnd + 1, posOff + sizeForBody dp d e body]
   | .while c body _ =>
     let bodyOff := off + 1 + (compileExpr c).length + 1
     [off] ++ marksStmt dp d e bodyOff body ++ [bodyOff + sizeStmt dp d e body]
